@@ -24,25 +24,41 @@ def hooked : List Tok → Bool
   | t :: rest =>
     (if isStore t then (match rest with | .hook :: _ => true | _ => false) else true) && hooked rest
 
+def isFence : Tok → Bool
+  | .fence _ => true
+  | _ => false
+
+/-- additional fences only strengthen the ordering: they are disregarded everywhere except for the one
+`fence(SeqCst)` that must separate the ring-slot store from the index store -/
 def beforeFenceOk : List Tok → Bool
   | [] => true
   | t :: rest => (match t with
-      | .addIndirect | .addDirect | .ringStore | .hook => true
+      | .addIndirect | .addDirect | .ringStore | .hook | .fence _ => true
       | _ => false) && beforeFenceOk rest
 
 /-- after the fence: only the private index bump, one index store (Release or stronger), its hook -/
 def afterFenceOk (l : List Tok) : Bool :=
-  match l.filter (fun t => t != .availIdxBump && t != .hook) with
+  match l.filter (fun t => t != .availIdxBump && t != .hook && !isFence t) with
   | [.idxStore o] => storeOrdOk o
   | _ => false
 
+/-- split at the **last** `fence(SeqCst)` (the one nearest to the index store) -/
 def splitAtFence : List Tok → Option (List Tok × List Tok)
   | [] => none
-  | .fence .seqCst :: rest => some ([], rest)
-  | t :: rest => (splitAtFence rest).map fun (a, b) => (t :: a, b)
+  | t :: rest =>
+    match splitAtFence rest with
+    | some (a, b) => some (t :: a, b)
+    | none => if t == .fence .seqCst then some ([], rest) else none
+
+def isIdxStore : Tok → Bool
+  | .idxStore _ => true
+  | _ => false
 
 def addOk (l : List Tok) : Bool :=
-  match splitAtFence l with
+  -- the fence that counts is the last `fence(SeqCst)` before the index store
+  let beforeIdx := l.takeWhile (fun t => !isIdxStore t)
+  let fromIdx := l.dropWhile (fun t => !isIdxStore t)
+  match (splitAtFence beforeIdx).map (fun (a, b) => (a, b ++ fromIdx)) with
   | none => false
   | some (pre, post) =>
     beforeFenceOk pre && pre.contains .ringStore && (pre.contains .addDirect || pre.contains .addIndirect)
@@ -53,13 +69,13 @@ def builderOk (l : List Tok) : Bool :=
 
 def popOk (l : List Tok) : Bool :=
   l.all (fun t => match t with
-    | .recycle | .lastUsedBump | .hook => true
+    | .recycle | .lastUsedBump | .hook | .fence _ => true
     | .usedEventStore o => storeOrdOk o
     | _ => false)
   && l.contains .recycle
 
 def notifyOk (l : List Tok) : Bool :=
-  match l with
+  match l.filter (fun t => !isFence t) with
   | [.flagsStore o, .hook] => storeOrdOk o
   | _ => false
 
